@@ -68,32 +68,47 @@ func runC17HTTP(r *Run, rng *Rng, poolSize int) {
 		at    time.Duration
 		body  string
 	}
-	post := func(low bool, id int64) res {
+	var rngMu sync.Mutex
+	mkBody := func(low bool, id int64) (string, []byte) {
 		sp := leafSpec{NotAfter: env.NotAfterLimit.Add(-24 * time.Hour), EKU: "server"}
 		ep := "add-chain"
 		if low {
 			sp.Poison = "ok" // precertificate whose NotBefore is months old: low priority
 			ep = "add-pre-chain"
 		}
+		rngMu.Lock()
 		leaf := makeLeaf(rng, id, root, sp)
+		rngMu.Unlock()
 		body, _ := json.Marshal(map[string]any{"chain": [][]byte{leaf.DER}})
+		return ep, body
+	}
+	postBody := func(ep string, body []byte) res {
 		req := httptest.NewRequest("POST", "/ct/v1/"+ep, bytes.NewReader(body))
 		rec := httptest.NewRecorder()
 		h.ServeHTTP(rec, req)
 		return res{rec.Code, rec.Header().Get("Retry-After"), time.Since(now), truncateStr(rec.Body.String(), 80)}
 	}
+	post := func(low bool, id int64) res {
+		ep, body := mkBody(low, id)
+		return postBody(ep, body)
+	}
 	r.Eval(1)
 	var mu sync.Mutex
 	var lows []res
+	dups := map[int]res{} // second submitter of the same pending low-priority chain
+	firsts := map[int]res{}
 	var wg sync.WaitGroup
 	// 1. fill the pool with low-priority submissions (they block until sequenced or evicted)
+	bodies := make([][]byte, poolSize)
 	for i := 0; i < poolSize; i++ {
+		_, bodies[i] = mkBody(true, int64(1000+i))
 		wg.Add(1)
 		go func() {
 			defer wg.Done()
-			x := post(true, int64(1000+i))
+			x := postBody("add-pre-chain", bodies[i])
 			mu.Lock()
 			lows = append(lows, x)
+			firsts[i] = x
 			mu.Unlock()
 		}()
 	}
@@ -113,6 +128,27 @@ func runC17HTTP(r *Run, rng *Rng, poolSize int) {
 		wg.Wait()
 		return
 	}
+	// 1b. every pending chain gets a second, concurrent submitter (a duplicate
+	// waits on the same pool entry and shares its fate, eviction included)
+	for i := 0; i < poolSize; i++ {
+		wg.Add(1)
+		go func() {
+			defer wg.Done()
+			x := postBody("add-pre-chain", bodies[i])
+			mu.Lock()
+			dups[i] = x
+			mu.Unlock()
+		}()
+	}
+	for i := 0; i < 400 && admitted() < 2*poolSize; i++ {
+		time.Sleep(5 * time.Millisecond)
+	}
+	if admitted() < 2*poolSize {
+		r.Inconcl("duplicate submitters did not reach their wait function in time (%d of %d)", admitted(), 2*poolSize)
+		cancel()
+		wg.Wait()
+		return
+	}
 	// 2. one more low-priority submission: rate limited at once
 	x := post(true, 2000)
 	r.DistinctKey(fmt.Sprintf("%d/low-into-full/%d", poolSize, x.code))
@@ -124,7 +160,7 @@ func runC17HTTP(r *Run, rng *Rng, poolSize int) {
 	wg.Add(1)
 	go func() { defer wg.Done(); high = post(false, 3000) }()
 	// the high-priority request must be in the pool before the tick
-	for i := 0; i < 400 && admitted() < poolSize; i++ {
+	for i := 0; i < 400 && admitted() < 2*poolSize; i++ {
 		time.Sleep(5 * time.Millisecond)
 	}
 	midRounds := r.Counter("lock_commits")
@@ -150,6 +186,16 @@ func runC17HTTP(r *Run, rng *Rng, poolSize int) {
 			ok++
 		default:
 			env.violate("pending-low-priority-status", "pending low-priority submission answered %d", l.code)
+		}
+	}
+	for i := 0; i < poolSize; i++ {
+		f, d := firsts[i], dups[i]
+		r.DistinctKey(fmt.Sprintf("%d/duplicate-of-pending/first=%d/dup=%d", poolSize, f.code, d.code))
+		if f.code != d.code {
+			env.violate("duplicate-submitter-other-status", "two concurrent submitters of one pending low-priority chain were answered %d and %d (%s)", f.code, d.code, d.body)
+		}
+		if d.code == 503 && d.retry == "" {
+			env.violate("evicted-without-retry-after", "the second submitter of an evicted chain was answered 503 without Retry-After")
 		}
 	}
 	r.DistinctKey(fmt.Sprintf("%d/evicted=%d", poolSize, ev))
